@@ -1,1 +1,342 @@
-/- C17: property theorems go here (only property theorems, non-vacuity examples, #print axioms). -/
+import StorageModel.C17.SnapshotProofs
+import StorageModel.C17.LockProofs
+import StorageModel.C17.LockTable
+import StorageModel.Generated.DbLocks
+/-
+  C17 — Snapshot and restore reproduce the database exactly.
+
+  "A snapshot taken at a committed state, when later restored over any subsequent state, yields a
+  database whose entire logical content equals the state at snapshot time, apart from the
+  snapshot-id and timeline-reset markers the snapshot operation itself records. After the restore
+  the reported snapshot id is the one returned when the snapshot was taken, restore listeners have
+  fired, the next timeline-id request returns a fresh id exactly once, and transactions running
+  concurrently with the restore see either the old or the new database in full, never a mixture."
+  — for all histories (state A; snapshot; arbitrary further transactions; restore) and all
+  interleavings of concurrent read/write transactions with the restore.
+
+  PARTIAL.  The theorems are about the executable model in StorageModel/C17 (Snapshot.lean: the
+  sequential behaviour of boltz/db.go over `(content, meta)`; Lock.lean: the reloadLock protocol as
+  a transition system).  What the model cannot exhibit, and what therefore rests on the
+  correspondence harness alone: that `tx.CopyFile/WriteTo` produce a consistent copy, that
+  close/rename/reopen of the files succeed and are atomic enough, bbolt's `Close` waiting for open
+  transactions, asynchronous delivery of `go listener()`, and the Go `sync.RWMutex` semantics the
+  lock model assumes (writer preference: RLock blocks behind an announced writer).
+-/
+namespace StorageModel.Properties.C17
+open StorageModel.C17 StorageModel.C17.Lock
+
+/-! ## Sequential clauses, for all histories -/
+
+/-- **restore ∘ snapshot.**  For every start state, every history `h1` leading to the state A at
+    which the snapshot is taken, every further history `h2` (transactions, other snapshots into other
+    slots, other restores, timeline requests, …) and either restore route: the database after the
+    restore is the database at snapshot time with exactly the two markers set (snapshot id = the id
+    handed out, resetTimeline = true); in particular the content is A's content. -/
+theorem restore_snapshot (s0 : Sys) (h1 h2 : List Op) (k : Nat) (inTx viaR : Bool) (hk : KeepsSlot k h2) :
+    let sA := (run s0 h1).1
+    (run s0 (h1 ++ [.snap k inTx] ++ h2 ++ [.restore k viaR])).1.db = mark sA.nextId sA.db ∧
+    (run s0 (h1 ++ [.snap k inTx] ++ h2 ++ [.restore k viaR])).1.db.content = sA.db.content := by
+  intro sA
+  have key : (run s0 (h1 ++ [.snap k inTx] ++ h2 ++ [.restore k viaR])).1.db = mark sA.nextId sA.db := by
+    simp only [run_append, List.append_assoc]
+    have hfile : lookup k (run (run (run s0 h1).1 [.snap k inTx]).1 h2).1.files = some (mark sA.nextId sA.db) := by
+      rw [run_keeps_file _ h2 k hk]
+      simp [run, step, lookup_store_same, sA]
+    simp only [run, step] at hfile ⊢
+    simp [hfile]
+  exact ⟨key, by rw [key]; rfl⟩
+
+/-- the snapshot operation reports the id it wrote: the observation of `snap` carries `nextId` -/
+theorem snapshot_reports_id (s : Sys) (k : Nat) (inTx : Bool) :
+    (step s (.snap k inTx)).2 = .snapped s.nextId s.db := rfl
+
+/-- **snapshot id kept.**  After the restore, GetSnapshotId reports the id returned by Snapshot. -/
+theorem snapshot_id_kept (s0 : Sys) (h1 h2 : List Op) (k : Nat) (inTx viaR : Bool) (hk : KeepsSlot k h2) :
+    let sA := (run s0 h1).1
+    (step (run s0 (h1 ++ [.snap k inTx] ++ h2 ++ [.restore k viaR])).1 .gsid).2 = .sid (some sA.nextId) := by
+  intro sA
+  have := (restore_snapshot s0 h1 h2 k inTx viaR hk).1
+  simp only [step, this]
+  simp [mark, sA]
+
+/-- **restore listeners fire**, each registered listener exactly once per restore. -/
+theorem restore_fires_listeners (s : Sys) (k : Nat) (viaR : Bool) (f : Db) (hf : lookup k s.files = some f) :
+    (step s (.restore k viaR)).1.fired = s.fired + s.listeners ∧
+    (step s (.restore k viaR)).2 = .restored (s.fired + s.listeners) f := by
+  simp [step, hf]
+
+/-- **timeline once.**  In a state whose reset marker is set (as it is after restoring a marked
+    snapshot, see `restore_snapshot`), the first GetTimelineId request — in any mode, with a working
+    `idF` — calls `idF` exactly once and returns that fresh id; after any further history without
+    another restore or forced reset, every request in `default` or `initIfEmpty` mode returns the
+    same id and does not call `idF`. -/
+theorem timeline_once (s : Sys) (hrt : s.db.mt.rt = some true) (m : Mode) :
+    (step s (.gtl m true)).2 = .tl (some (s.idf + 1)) 1 ∧
+    ∀ (h : List Op), (∀ o ∈ h, o.quiet = true) → ∀ (m' : Mode) (ok : Bool), m' ≠ .forceReset →
+      (step (run (step s (.gtl m true)).1 h).1 (.gtl m' ok)).2 = .tl (some (s.idf + 1)) 0 := by
+  have h1 : (step s (.gtl m true)) =
+      ({ s with idf := s.idf + 1,
+                db := { s.db with mt := { s.db.mt with present := true, tl := some (s.idf + 1), rt := some false } } },
+       .tl (some (s.idf + 1)) 1) := by
+    simp [step, getTimeline, hrt]
+  refine ⟨by rw [h1], ?_⟩
+  intro h hq m' ok hm'
+  have hs : Settled (s.idf + 1) (step s (.gtl m true)).1 := by rw [h1]; exact ⟨rfl, rfl⟩
+  obtain ⟨r1, r2⟩ := run_quiet_settled _ h _ hq hs
+  have hf : m'.force (run (step s (.gtl m true)).1 h).1.db.mt.tl = false := by
+    cases m' with
+    | default => rfl
+    | initIfEmpty => simp [Mode.force, r2]
+    | forceReset => exact absurd rfl hm'
+  generalize (run (step s (.gtl m true)).1 h).1 = S at r1 r2 hf
+  rw [r2] at hf
+  simp [step, getTimeline, r1, hf, r2]
+
+/-- the two together: after `A; snapshot; …; restore` the reset marker is set, hence `timeline_once` applies -/
+theorem restore_then_timeline_fresh (s0 : Sys) (h1 h2 : List Op) (k : Nat) (inTx viaR : Bool) (hk : KeepsSlot k h2)
+    (m : Mode) :
+    let s := (run s0 (h1 ++ [.snap k inTx] ++ h2 ++ [.restore k viaR])).1
+    (step s (.gtl m true)).2 = .tl (some (s.idf + 1)) 1 := by
+  intro s
+  have hdb := (restore_snapshot s0 h1 h2 k inTx viaR hk).1
+  exact (timeline_once s (by simp only [s, hdb, mark]) m).1
+
+/-- **stream route.**  StreamToWriter + RestoreFromReader reproduce the database exactly (content
+    and meta; no markers are written on this route). -/
+theorem stream_restore_exact (s0 : Sys) (h1 h2 : List Op) (k : Nat) (viaR : Bool) (hk : KeepsSlot k h2) :
+    (run s0 (h1 ++ [.stream k] ++ h2 ++ [.restore k viaR])).1.db = (run s0 h1).1.db := by
+  simp only [run_append, List.append_assoc]
+  have hfile : lookup k (run (run (run s0 h1).1 [.stream k]).1 h2).1.files = some (run s0 h1).1.db := by
+    rw [run_keeps_file _ h2 k hk]
+    simp [run, step, lookup_store_same]
+  simp only [run, step] at hfile ⊢
+  simp [hfile]
+
+/-- **model ⊨ spec, all histories.**  `specHolds` is the property's clauses evaluated on an observed
+    trace (restored dump = dump at snapshot time modulo the markers; id kept; listeners fired; next
+    timeline request fresh exactly once, then stable) — the same function the check applies to the
+    IMPLEMENTATION's observations on every run.  Every trace of the model satisfies it. -/
+theorem model_meets_spec (h : List Op) : specHolds h (run {} h).2 = true :=
+  rel_run {} {} h Rel_init
+
+/-- the run-time oracle (`specFirstFail`, which also names the failing operation) accepts exactly the
+    traces `specHolds` accepts, so it accepts every model trace -/
+theorem oracle_accepts_model (h : List Op) : specFirstFail {} h (run {} h).2 0 = none :=
+  (specFirstFail_none_iff {} h _ 0).mpr (model_meets_spec h)
+
+/-! ## Concurrent clause: the lock protocol, for all interleavings -/
+
+/-- **no mixed view.**  For every set of threads — any number of transactions whose programs are
+    balanced with reads under a read hold (re-entrant ones included), any number of restores — and
+    every interleaving (any list of scheduling choices): every read of every transaction sees the
+    database generation that was open when the transaction took its outermost read lock, and never a
+    closed handle.  Hence a transaction's whole extent lies before or after the swap. -/
+theorem no_mixed_view (ts : List Thread) (hts : ∀ t ∈ ts, t.initial = true) (sched : List Nat) :
+    anyMixed (exec (init ts) sched) = false :=
+  not_mixed_of_Inv (Inv_exec (Inv_init hts) sched)
+
+/-- the same, spelled out per read -/
+theorem every_read_sees_pinned (ts : List Thread) (hts : ∀ t ∈ ts, t.initial = true) (sched : List Nat)
+    (p : List TxAct) (d : Nat) (pin : Option Nat) (obs : List (Option Nat × Option Nat))
+    (ht : Thread.tx p d pin obs ∈ (exec (init ts) sched).threads) :
+    ∀ o ∈ obs, ∃ g, o.1 = some g ∧ o.2 = some g := by
+  have hinv := (Inv_exec (Inv_init hts) sched).thr _ ht
+  intro o ho
+  obtain ⟨h1, h2⟩ := hinv.2.2.2 o ho
+  cases h : o.1 with
+  | none => rw [h] at h1; simp at h1
+  | some g => exact ⟨g, rfl, by rw [h2, h]⟩
+
+/-- the write lock really is exclusive in every reachable state: while a restore is between Close and
+    Open (handle closed) or anywhere inside its critical section, nobody holds a read lock -/
+theorem swap_excludes_readers (ts : List Thread) (hts : ∀ t ∈ ts, t.initial = true) (sched : List Nat) :
+    ((exec (init ts) sched).g.held = true → (exec (init ts) sched).g.readers = 0) ∧
+    ((exec (init ts) sched).g.isOpen = false → (exec (init ts) sched).g.readers = 0) := by
+  have hinv := Inv_exec (Inv_init hts) sched
+  generalize exec (init ts) sched = s at hinv
+  refine ⟨hinv.excl, ?_⟩
+  intro hclosed
+  apply hinv.excl
+  have hc := hinv.closed
+  have hh := hinv.held
+  have := sumBy_le inClosed_le_inHeld s.threads
+  cases hg : s.g.held with
+  | true => rfl
+  | false =>
+    simp [hg, hclosed] at hc hh
+    omega
+
+/-- **no deadlock without re-entrant read locking.**  If no transaction takes the read lock while it
+    already holds it, then in every reachable state either every thread has finished or some thread
+    can move: transactions and restores always complete under a fair scheduler. -/
+theorem no_deadlock_flat (ts : List Thread) (hts : ∀ t ∈ ts, t.initialFlat = true) (sched : List Nat) :
+    stuck (exec (init ts) sched) = false := by
+  have hi := Inv_exec (Inv_init (fun t ht => initial_of_initialFlat (hts t ht))) sched
+  have hf : AllFlat (init ts) := by
+    intro t ht
+    have := hts t ht
+    cases t with
+    | tx p d pin obs =>
+      simp only [Thread.initialFlat, Bool.and_eq_true, beq_iff_eq] at this
+      obtain ⟨⟨⟨rfl, _⟩, _⟩, hfl⟩ := this
+      exact hfl
+    | restore pc => trivial
+  exact not_stuck_of_Inv hi (AllFlat_exec hf sched)
+
+/-- **completion under a fair scheduler.**  Without re-entrant read locking, round-robin scheduling
+    (every thread gets a turn in every pass) finishes every transaction and every restore within
+    `work` passes, `work` = total number of steps the threads have to take.  (Each pass performs at
+    least one step by `no_deadlock_flat`; each step is work done.) -/
+theorem flat_population_completes (ts : List Thread) (hts : ∀ t ∈ ts, t.initialFlat = true) :
+    allDone (exec (init ts) (roundRobin ts.length (work (init ts)))) = true := by
+  have hi := Inv_init (fun t ht => initial_of_initialFlat (hts t ht))
+  have hf : AllFlat (init ts) := by
+    intro t ht
+    have := hts t ht
+    cases t with
+    | tx p d pin obs =>
+      simp only [Thread.initialFlat, Bool.and_eq_true, beq_iff_eq] at this
+      obtain ⟨⟨⟨rfl, _⟩, _⟩, hfl⟩ := this
+      exact hfl
+    | restore pc => trivial
+  exact rounds_complete hi hf (work (init ts)) (Nat.le_refl _)
+
+/-! ## Obligations on the regenerated lock table (Generated/DbLocks.lean, from boltz/db.go now) -/
+
+/-- RestoreFromReader / RestoreSnapshot have the shape the model's restore thread follows: persist
+    outside the lock; Lock; Close, Rename, Rename, Open; go listener(); deferred Unlock. -/
+theorem restore_under_write_lock : restoreModelled Generated.dbLockPrograms = true := by decide
+
+/-- every transaction entry point reads as a balanced program with its bolt transaction / file copy
+    under a read hold — the hypothesis of `no_mixed_view` holds of the code's programs. -/
+theorem tx_entry_points_guarded : txProgsGuarded Generated.dbLockPrograms = true := by decide
+
+/-- hence: any population of threads running the code's entry points and restores never sees a
+    mixed view, under any interleaving -/
+theorem code_no_mixed_view (names : List String) (nRestores : Nat) (sched : List Nat)
+    (hn : ∀ n ∈ names, n ∈ txEntryPoints) :
+    anyMixed (exec (init (names.filterMap (fun n => (txProg Generated.dbLockPrograms n).map mkTx) ++
+        List.replicate nRestores (.restore .persist))) sched) = false := by
+  apply no_mixed_view
+  intro t ht
+  rcases List.mem_append.mp ht with ht | ht
+  · obtain ⟨n, hnm, hsome⟩ := List.mem_filterMap.mp ht
+    have hg := tx_entry_points_guarded
+    simp only [txProgsGuarded, List.all_eq_true] at hg
+    have := hg n (hn n hnm)
+    cases hp : txProg Generated.dbLockPrograms n with
+    | none => rw [hp] at hsome; simp at hsome
+    | some p =>
+      rw [hp] at hsome this
+      simp only [Option.map_some, Option.some.injEq] at hsome
+      subst hsome
+      simpa [mkTx, Thread.initial] using this
+  · have := (List.mem_replicate.mp ht).2
+    subst this
+    rfl
+
+/-! ## Non-vacuity, and the finding -/
+
+/-- the hypotheses are satisfiable by the interesting population: two readers, a snapshotter and
+    two restores; and a real interleaving gets somewhere (both restores complete) -/
+example : let ts := [mkTx [.rlock, .read, .read, .runlock], mkTx [.rlock, .read, .runlock],
+                     mkTx [.rlock, .rlock, .read, .runlock, .runlock], .restore .persist, .restore .persist]
+    (∀ t ∈ ts, t.initial = true) ∧ (exec (init ts) [0, 3, 3, 0, 0, 0, 3, 3, 3, 3, 3, 3, 1, 4, 4, 1, 1, 4, 4, 4, 4, 4, 4]).g.gen = 2 := by
+  decide
+
+/-- the theorem is not vacuous: WITHOUT the write lock (restore swapping files outside the lock) a
+    mixed view is reachable — a reader sees generation 0, then the swapped-in generation 1 -/
+example : anyMixed (execNoLock (init [mkTx [.rlock, .read, .read, .runlock], .restore .persist])
+    [0, 0, 1, 1, 1, 1, 1, 0]) = true := by decide
+
+/-- … and a closed handle is reachable too -/
+example : anyMixed (execNoLock (init [mkTx [.rlock, .read, .runlock], .restore .persist])
+    [0, 1, 1, 1, 1, 0]) = true := by decide
+
+/-- COUNTER-EXAMPLE KEPT FOR THE RECORD — the protocol BEFORE /repo commit 1716f6e:
+    `Snapshot` = `View` (RLock) around `SnapshotInTx`, which took the read lock AGAIN (and
+    `RootBucket(tx)` did the same inside any transaction).  With a restore arriving between the two
+    RLock calls the system is stuck: the snapshotter's second RLock waits behind the announced
+    writer, the writer waits for the snapshotter's first hold.  The trace [0,0,1,1] below is that
+    schedule (thread 0: RLock, begin bolt tx; thread 1: persist, announce Lock); the resulting
+    state is reachable and has no enabled thread.  The program is balanced and guarded (`wf`), so
+    `no_mixed_view` covered it — it was a liveness defect, which is why `no_deadlock_flat` needs
+    flatness.  (program as regenerated from the old code: rlock, dbtx, rlock, copy, runlock, runlock) -/
+def snapshotProgramBefore1716f6e : List TxAct := [.rlock, .read, .rlock, .read, .runlock, .runlock]
+
+theorem old_protocol_deadlock_reachable :
+    stuck (exec (init [mkTx snapshotProgramBefore1716f6e, .restore .persist]) [0, 0, 1, 1]) = true := by decide
+example : flat 0 snapshotProgramBefore1716f6e = false := by decide
+example : wf 0 snapshotProgramBefore1716f6e = true := by decide
+/-- the same for a transaction calling the old RootBucket(tx) -/
+example : stuck (exec (init [mkTx [.rlock, .read, .rlock, .runlock, .runlock], .restore .persist]) [0, 0, 1, 1]) = true := by decide
+
+/-! ## The repaired protocol (regenerated table): no re-entrant read lock, hence progress -/
+
+/-- obligation on the regenerated table: the two methods that are called with a transaction in hand
+    (i.e. under that transaction's read hold) do not take the read lock themselves -/
+theorem no_reentrant_read_lock :
+    (takesReadLock Generated.dbLockPrograms "SnapshotInTx" || takesReadLock Generated.dbLockPrograms "RootBucket") = false := by
+  decide
+
+/-- obligation on the regenerated table: every transaction entry point — `Snapshot` included — takes
+    the read lock exactly once around its bolt transaction -/
+theorem all_entry_points_flat : ∀ n ∈ txEntryPoints, txProgFlat Generated.dbLockPrograms n = true := by decide
+
+/-- **no deadlock for the code's protocol.**  Any population of threads running the code's
+    transaction entry points (as regenerated) and any number of restores, under any interleaving,
+    is never stuck: in every reachable state everybody has finished or somebody can move. -/
+theorem code_no_deadlock (names : List String) (nRestores : Nat) (sched : List Nat)
+    (hn : ∀ n ∈ names, n ∈ txEntryPoints) :
+    stuck (exec (init (names.filterMap (fun n => (txProg Generated.dbLockPrograms n).map mkTx) ++
+        List.replicate nRestores (.restore .persist))) sched) = false := by
+  apply no_deadlock_flat
+  intro t ht
+  rcases List.mem_append.mp ht with ht | ht
+  · obtain ⟨n, hnm, hsome⟩ := List.mem_filterMap.mp ht
+    have := all_entry_points_flat n (hn n hnm)
+    simp only [txProgFlat] at this
+    cases hp : txProg Generated.dbLockPrograms n with
+    | none => rw [hp] at hsome; simp at hsome
+    | some p =>
+      rw [hp] at hsome this
+      simp only [Option.map_some, Option.some.injEq] at hsome
+      subst hsome
+      simpa [mkTx, Thread.initialFlat] using this
+  · have := (List.mem_replicate.mp ht).2
+    subst this
+    rfl
+
+/-- … and completes under round-robin scheduling -/
+theorem code_population_completes (names : List String) (nRestores : Nat) (hn : ∀ n ∈ names, n ∈ txEntryPoints) :
+    let ts := names.filterMap (fun n => (txProg Generated.dbLockPrograms n).map mkTx) ++
+        List.replicate nRestores (.restore .persist)
+    allDone (exec (init ts) (roundRobin ts.length (work (init ts)))) = true := by
+  intro ts
+  apply flat_population_completes
+  intro t ht
+  rcases List.mem_append.mp ht with ht | ht
+  · obtain ⟨n, hnm, hsome⟩ := List.mem_filterMap.mp ht
+    have := all_entry_points_flat n (hn n hnm)
+    simp only [txProgFlat] at this
+    cases hp : txProg Generated.dbLockPrograms n with
+    | none => rw [hp] at hsome; simp at hsome
+    | some p =>
+      rw [hp] at hsome this
+      simp only [Option.map_some, Option.some.injEq] at hsome
+      subst hsome
+      simpa [mkTx, Thread.initialFlat] using this
+  · have := (List.mem_replicate.mp ht).2
+    subst this
+    rfl
+
+/-- non-vacuity of `code_no_deadlock`: the population that used to deadlock (a snapshotter, a
+    reader, two restores) now runs to completion under a concrete schedule -/
+example :
+    let ts := (["Snapshot", "View"].filterMap (fun n => (txProg Generated.dbLockPrograms n).map mkTx)) ++
+              List.replicate 2 (.restore .persist)
+    ts.length = 4 ∧
+    allDone (exec (init ts) [0, 0, 2, 2, 0, 0, 2, 2, 2, 2, 2, 1, 3, 3, 1, 1, 3, 3, 3, 3, 3]) = true := by
+  decide
+
+end StorageModel.Properties.C17
